@@ -361,7 +361,7 @@ def make(cfg):
                                                                  'Comments']:
             msg = 'rows indexed by %r with columns %r; expected one row per profiled attribute %r' % (
                 list(out.index), list(out.columns), want_attrs)
-            raise Violation('C17/shape: ' + msg, detail('shape', msg, want_attrs[0]))
+            raise Violation('C17/shape: ' + msg, detail('shape', msg, (want_attrs or attrs)[0]))
         nf = z3.fpToFPUnsigned(fp.RNE, n.t, fp.F64)
         for i, a in enumerate(want_attrs):
             u, m = counts[a]
@@ -411,7 +411,7 @@ def make(cfg):
                     raise Violation('C17/missing-comment: ' + msg, detail('missing-comment', msg, a))
         tags = ['attrs=%d' % len(want_attrs)]
         from . import tracecheck
-        if B <= 12 and tracecheck.maybe_validate(c, 'h_prof', detail('trace-validation', '-', want_attrs[0]),
+        if B <= 12 and tracecheck.maybe_validate(c, 'h_prof', detail('trace-validation', '-', (want_attrs or attrs)[0]),
                                                  cfg.get('validate_every', 5), 'C17'):
             tags.append('validated')
         return {'nontrivial': True, 'tags': tags, 'sample': None}
